@@ -31,21 +31,21 @@ var arapKinds = []string{"icosphere", "icosphere", "subbox", "torus", "cylinder"
 
 func genARAP(t *rapid.T) arapCase {
 	c := arapCase{Src: genSrc3(t, arapKinds, true, "src")}
-	if rapid.IntRange(0, 2).Draw(t, "dojitter") == 0 {
+	if gen.Int(t, 0, 2, "dojitter") == 0 {
 		c.Src.Jitter = gen.LogF(t, 0.01, 0.5, "jitter")
-		c.Src.JSeed = rapid.IntRange(0, 1<<20).Draw(t, "jseed")
+		c.Src.JSeed = gen.Int(t, 0, 1<<20, "jseed")
 	}
-	c.Weights = rapid.IntRange(0, 3).Draw(t, "weights")
-	c.Mode = rapid.SampledFrom([]string{"translate", "rotate", "rotate"}).Draw(t, "mode")
-	n := rapid.IntRange(5, 14).Draw(t, "ncons")
+	c.Weights = gen.Int(t, 0, 3, "weights")
+	c.Mode = pickOf(t, []string{"translate", "rotate", "rotate"}, "mode")
+	n := gen.Int(t, 5, 14, "ncons")
 	for i := 0; i < n; i++ {
-		c.Cons = append(c.Cons, rapid.IntRange(0, 1<<20).Draw(t, "con"))
+		c.Cons = append(c.Cons, gen.Int(t, 0, 1<<20, "con"))
 	}
 	c.T = gen.Vec3(t, 2, "t")
 	c.Axis = gen.Dir3(t, "axis").Unit()
 	c.Angle = gen.F(t, -math.Pi/3, math.Pi/3, "angle")
-	c.MaxIt = rapid.SampledFrom([]int{0, 0, 2000}).Draw(t, "maxit")
-	c.Seq = rapid.IntRange(0, 3).Draw(t, "seq") == 0
+	c.MaxIt = pickOf(t, []int{0, 0, 2000}, "maxit")
+	c.Seq = gen.Int(t, 0, 3, "seq") == 0
 	return c
 }
 
@@ -171,6 +171,17 @@ func checkARAP(c arapCase, o *kit.Obs) error {
 			return fmt.Errorf("%s: constrained vertex %v must land exactly on %v, which is not a vertex of the result", what, im.V[i], want[i])
 		}
 	}
+	if weights == 3 {
+		// different weights for the linear solve and for the rotation fit: the alternation does not descend on
+		// one energy and is not claimed to reach the rigid solution (it settles elsewhere on tori);
+		// constraints and connectivity only
+		if len(vo) < len(im.V) {
+			o.Skip("degenerate:deformed-vertices-coincide")
+			return nil
+		}
+		_, err := checkTopo3(out, rep, what)
+		return err
+	}
 	size := size3(in) + c.T.Norm()
 	tol := 1e-6 * size
 	if c.Mode == "translate" {
@@ -238,12 +249,12 @@ type flattenCase struct {
 
 func genFlatten(t *rapid.T) flattenCase {
 	c := flattenCase{Tree: gen.NodeGen(t, 2, 3, false, "tree"), ZFrac: gen.F(t, 0.1, 0.7, "zfrac"),
-		DeltaRel: gen.LogF(t, 0.04, 0.12, "deltaRel"), Iters: rapid.IntRange(2, 8).Draw(t, "iters")}
-	n := rapid.IntRange(0, 4).Draw(t, "nblur")
+		DeltaRel: gen.LogF(t, 0.04, 0.12, "deltaRel"), Iters: gen.Int(t, 2, 8, "iters")}
+	n := gen.Int(t, 0, 4, "nblur")
 	for i := 0; i < n; i++ {
 		c.Blur = append(c.Blur, gen.F(t, 0.1, 1, "rate"))
 	}
-	if rapid.IntRange(0, 3).Draw(t, "defaultAngle") != 0 {
+	if gen.Int(t, 0, 3, "defaultAngle") != 0 {
 		c.MaxAngle = gen.F(t, 0.2, 1.5, "maxAngle")
 	}
 	return c
@@ -253,6 +264,12 @@ func checkFlatten(c flattenCase, o *kit.Obs) error {
 	// flat-based solid: the tree cut by a horizontal plane (the solid's own bounds place the cut)
 	whole := c.Tree.Build()
 	lo, hi := m3.V3(whole.Min()), m3.V3(whole.Max())
+	for k := 0; k < 3; k++ {
+		if !(hi[k] > lo[k]) {
+			o.Skip("empty-input") // intersection of disjoint solids: inverted bounds
+			return nil
+		}
+	}
 	z0 := lo[2] + c.ZFrac*(hi[2]-lo[2])
 	clip := &gen.Node{Op: "prim", Shape: &gen.Shape3{Kind: "rect", A: kit.V3{lo[0] - 1, lo[1] - 1, z0}, B: kit.V3{hi[0] + 1, hi[1] + 1, hi[2] + 1}}}
 	solid := (&gen.Node{Op: "intersect", Kids: []*gen.Node{c.Tree, clip}}).Build()
